@@ -181,8 +181,10 @@ async fn ns_flow(log: &mut Log, st: &mut Stats, rng: &mut Rng) {
     }
     let mut order = pids.clone();
     rng.shuffle(&mut order);
+    let mut nonces: std::collections::HashMap<u64, u64> = Default::default();
     for pid in &order {
         let nonce = *rng.pick(&[0u64, 0, 4, 4, 9]);
+        nonces.insert(*pid, nonce);
         let r = probe.register(*pid, peer, nonce);
         log.rec(format!("register {pid} {peer} {nonce}"), r.to_string());
         log.rec(format!("checkc {pid}"), probe.check_candidate(*pid));
@@ -200,6 +202,7 @@ async fn ns_flow(log: &mut Log, st: &mut Stats, rng: &mut Rng) {
             continue;
         }
         st.bump("flow_commit");
+        let mut to_close: Vec<u64> = Vec::new();
         let obs = match probe.commit(*pid) {
             None => "none".to_string(),
             Some((s, mut l)) => {
@@ -207,16 +210,24 @@ async fn ns_flow(log: &mut Log, st: &mut Stats, rng: &mut Rng) {
                 if !l.is_empty() {
                     st.bump("ns_commit_with_losers");
                 }
-                for x in &l {
-                    if rng.chance(1, 2) {
-                        // the handler stops losers; their exit removes them from the state
-                        probe.close(*x);
-                    }
-                }
+                to_close = l.clone();
                 format!("{s} {}", show_u64s(&l))
             }
         };
         log.rec(format!("commit {pid}"), obs);
+        // the session's own post-authentication CheckSession (it stops itself on a losing reply)
+        st.bump("postauth");
+        log.rec(
+            format!("postauth {pid}"),
+            format!("{} {}", probe.is_elected(*pid), probe.check_session(peer, nonces[pid])),
+        );
+        for x in &to_close {
+            if rng.chance(1, 2) {
+                // the handler stops losers; their exit removes them from the state
+                probe.close(*x);
+                log.rec(format!("close {x}"), "ok");
+            }
+        }
         log.rec("visible", show_u64s(&probe.visible()));
         for q in &pids {
             log.rec(format!("elected {q}"), probe.is_elected(*q).to_string());
@@ -329,6 +340,7 @@ async fn replay_ops(log: &mut Log, st: &mut Stats, path: &str) {
     let text = std::fs::read_to_string(path).unwrap_or_default();
     let mut probe: Option<NodeStateProbe> = None;
     let mut map: std::collections::HashMap<u64, u64> = Default::default();
+    let mut regs: std::collections::HashMap<u64, (String, u64)> = Default::default();
     let m = |map: &std::collections::HashMap<u64, u64>, p: &str| -> u64 {
         let v: u64 = p.parse().unwrap_or(0);
         *map.get(&v).unwrap_or(&v)
@@ -382,6 +394,9 @@ async fn replay_ops(log: &mut Log, st: &mut Stats, path: &str) {
                     ["register", pid, peer, nonce] => {
                         let pid = m(&map, pid);
                         let r = p.register(pid, peer, nonce.parse().unwrap_or(0));
+                        if r {
+                            regs.insert(pid, (peer.to_string(), nonce.parse().unwrap_or(0)));
+                        }
                         log.rec(format!("register {pid} {peer} {nonce}"), r.to_string());
                     }
                     ["checkc", pid] => {
@@ -405,6 +420,11 @@ async fn replay_ops(log: &mut Log, st: &mut Stats, path: &str) {
                     ["elected", pid] => {
                         let pid = m(&map, pid);
                         log.rec(format!("elected {pid}"), p.is_elected(pid).to_string());
+                    }
+                    ["postauth", pid] => {
+                        let pid = m(&map, pid);
+                        let (peer, nonce) = regs.get(&pid).cloned().unwrap_or_default();
+                        log.rec(format!("postauth {pid}"), format!("{} {}", p.is_elected(pid), p.check_session(&peer, nonce)));
                     }
                     ["close", pid] => {
                         let pid = m(&map, pid);
